@@ -70,7 +70,7 @@ CHECKS.update({
 })
 
 CHECKS.update({
-    "C01": ("exhaustive enumeration of byte strings (six input spaces) fed to every public parsing entry point of the real code, every accessor/conversion/iterator called on every accepted value in two orders (all ordered pairs on a subset), with unwind capture, linear step bounds, a per-case watchdog and an allocation cap; plus iterator call histories (all sequences of next / nth / take-count calls up to a depth x 4 endings) on every iterator reachable from the base set and from every 1-3-tile datagram",
+    "C01": ("exhaustive enumeration of byte strings (six input spaces) fed to every public parsing entry point of the real code, every accessor/conversion/iterator called on every accepted value in two orders (all ordered pairs on a subset), with unwind capture, linear step bounds, a per-case watchdog and an allocation cap; plus iterator call histories (all sequences of next / nth / take-count calls up to a depth x 4 endings) on every iterator reachable from the base set and from every 1-3-tile datagram; the long inputs (giants, runs of up to 200 000 header-only packets, long chains) explored a second time in a child process built with the subject unoptimised, where fatal signals (stack overflow) are caught and reported as the case that caused them",
             "No panic, no iterator beyond its linear bound, no hang and no runaway allocation on any string of the stated spaces through any entry point or accessor. Exhaustive inside the bounds; strings outside them are not covered.",
             TRUSTED, "3 (C01)"),
     "C19": ("exhaustive enumeration of helper parameters, of a 24-member family of third-party packet definitions over the header space, and of Ext / UnknownBuilder configurations executed on the real code; byte-exact helper contracts and a three-valued framing classifier as reference; the utils::parser field readers on slices that hold the leading packet exactly or followed by more bytes; UnknownBuilder configurations also reached by setting other values first with the builder queried after every call",
